@@ -1,6 +1,6 @@
 import FGVerif.Model.C13
 /-!
-  C13, node level: the node list of `replaceNode` (ids, order, attributes), closedness of the
+  C13, node level: the node list of `replaceNodeLen` (ids, order, attributes), closedness of the
   adjacency (it mentions only nodes) and contiguity of the ids are preserved.  These are what
   C14's counting theorem needs; the bond-level theorems are in `Proofs/C13Edges*.lean`.
 -/
@@ -576,7 +576,7 @@ theorem shift_part {α : Type} (n : Int) (l : List (Int × α)) : ∀ (s c : Nat
     simp only [ha, hc]
 
 
-/-! ### assembling the node list of `replaceNode` -/
+/-! ### assembling the node list of `replaceNodeLen` -/
 
 theorem contiguous_ids (g : Graph) (h : contiguous g = true) :
     g.nodes.map (·.1) = (List.range' 0 g.nodes.length).map Int.ofNat := by
@@ -630,8 +630,8 @@ structure NodeDom (g : Graph) (x : Int) (sub : Graph) (anchors : List Nat) : Pro
 def zipNodes (g : Graph) (x : Int) (sub : Graph) : List (Int × NodeAttr) :=
   ((g.nodes.filter (·.1 != x) ++ (shiftGraph sub g.nodes.length).nodes).zipIdx 0).map fun q => ((q.2 : Int), q.1.2)
 
-theorem replaceNode_nodes_zip (g : Graph) (x : Int) (sub : Graph) (anchors : List Nat) (hd : NodeDom g x sub anchors) :
-    (replaceNode g x sub anchors).nodes = zipNodes g x sub := by
+theorem replaceNodeLen_nodes_zip (g : Graph) (x : Int) (sub : Graph) (anchors : List Nat) (hd : NodeDom g x sub anchors) :
+    (replaceNodeLen g x sub anchors).nodes = zipNodes g x sub := by
   obtain ⟨hcg, hx, hcs, hclg, hcls, hanch⟩ := hd
   have hidg := contiguous_ids g hcg
   have hids := contiguous_ids sub hcs
@@ -743,9 +743,9 @@ theorem zipNodes_eq_spec (g : Graph) (x : Int) (sub : Graph) (hcg : contiguous g
     show ((List.filter (fun p => p.1 != x) g.nodes).length : Int) = ((0 : Nat) : Int) + ((g.nodes.length : Int) - 1)
     omega
 
-theorem replaceNode_nodes (g : Graph) (x : Int) (sub : Graph) (anchors : List Nat) (hd : NodeDom g x sub anchors) :
-    (replaceNode g x sub anchors).nodes = specNodes g x sub := by
-  rw [replaceNode_nodes_zip g x sub anchors hd]
+theorem replaceNodeLen_nodes (g : Graph) (x : Int) (sub : Graph) (anchors : List Nat) (hd : NodeDom g x sub anchors) :
+    (replaceNodeLen g x sub anchors).nodes = specNodes g x sub := by
+  rw [replaceNodeLen_nodes_zip g x sub anchors hd]
   exact zipNodes_eq_spec g x sub hd.contG hd.hasX hd.contS
 
 theorem zipIdx_ids {α : Type} (l : List (α)) : ∀ (c : Nat),
@@ -754,20 +754,20 @@ theorem zipIdx_ids {α : Type} (l : List (α)) : ∀ (c : Nat),
   | nil => intro c; rfl
   | cons a l ih => intro c; simp only [List.zipIdx_cons, List.map_cons, List.length_cons, List.range'_succ, ih (c + 1)]; rfl
 
-theorem replaceNode_contiguous (g : Graph) (x : Int) (sub : Graph) (anchors : List Nat) (hd : NodeDom g x sub anchors) :
-    contiguous (replaceNode g x sub anchors) = true := by
+theorem replaceNodeLen_contiguous (g : Graph) (x : Int) (sub : Graph) (anchors : List Nat) (hd : NodeDom g x sub anchors) :
+    contiguous (replaceNodeLen g x sub anchors) = true := by
   unfold contiguous Graph.nodeIds
-  rw [replaceNode_nodes_zip g x sub anchors hd]
+  rw [replaceNodeLen_nodes_zip g x sub anchors hd]
   unfold zipNodes
   simp only [List.map_map, List.length_map, List.length_zipIdx, beq_iff_eq]
   rw [List.range_eq_range']
   exact zipIdx_ids _ 0
 
-theorem replaceNode_closed (g : Graph) (x : Int) (sub : Graph) (anchors : List Nat) :
-    Closed (replaceNode g x sub anchors) := relabelCopy_closed _ _
+theorem replaceNodeLen_closed (g : Graph) (x : Int) (sub : Graph) (anchors : List Nat) :
+    Closed (replaceNodeLen g x sub anchors) := relabelCopy_closed _ _
 
-theorem replaceNode_multi (g : Graph) (x : Int) (sub : Graph) (anchors : List Nat) :
-    (replaceNode g x sub anchors).multi = g.multi := by
+theorem replaceNodeLen_multi (g : Graph) (x : Int) (sub : Graph) (anchors : List Nat) :
+    (replaceNodeLen g x sub anchors).multi = g.multi := by
   show (relabelGraph _ 0).multi = _
   unfold relabelGraph
   rw [relabelCopy_multi]
